@@ -186,10 +186,39 @@ def run(ck, F):
                 if 'operator[](&P0)' in lv and w[2] == ('addr', ('param', 1)):
                     good = True
         good = good and v2 in (('sym', 'this'), ('deref', ('addr', ('sym', 'this'))))
+        if good and not (sub.get('ret') or '').rstrip().endswith('&'):
+            good = False
+            what += f'; it returns `{sub.get("ret")}` by value: `return *this` hands back a copy, and a binding given through the result ' \
+                    '(s.subst(p, a).subst(q, b)) lands in that temporary, not in the substitution'
     ck.check(RG, 'subst', good, f'General_substitution::subst does not overwrite the binding of p with v ({what}); '
              'insert/emplace keep the first binding', loc=sub['loc'], fn=sub['id'])
     # the map is keyed by parameter address and private
     rec = F.need_rec('ipr::impl::General_substitution')
     mp = [fl for fl in rec['fields'] if 'std::map<' in fl['t']]
-    ck.check(RG, 'map type', len(mp) == 1 and mp[0]['t'].startswith('std::map<const ipr::Parameter *, const ipr::Expr *'),
-             f'General_substitution stores its bindings in {[m["t"] for m in mp]}', loc=rec['loc'])
+    # the keys are parameter addresses and two keys are one exactly when the addresses are: the ordering of the map is the order
+    # of addresses (std::less / std::greater of the pointer type), not a relation under which distinct parameters are equivalent
+    mt = mp[0]['t'] if len(mp) == 1 else ''
+    def top_args(t):
+        i = t.find('<')
+        if i < 0:
+            return []
+        out, d, cur = [], 0, ''
+        for ch in t[i + 1:t.rfind('>')]:
+            if ch in '<(':
+                d += 1
+            elif ch in '>)':
+                d -= 1
+            if ch == ',' and d == 0:
+                out.append(cur.strip()); cur = ''
+            else:
+                cur += ch
+        out.append(cur.strip())
+        return out
+    targs = top_args(mt)
+    cmp_t = targs[2] if len(targs) >= 3 else 'std::less<const ipr::Parameter *>'
+    by_address = cmp_t.replace(' ', '') in ('std::less<constipr::Parameter*>', 'std::less<void>', 'std::greater<constipr::Parameter*>', 'std::greater<void>',
+                                           'std::less<>', 'std::greater<>')
+    ck.check(RG, 'map type', len(mp) == 1 and mt.startswith('std::map<const ipr::Parameter *, const ipr::Expr *') and by_address,
+             f'General_substitution stores its bindings in {[m["t"][:160] for m in mp]}: ' +
+             ('the keys are ordered by `' + cmp_t + '`, under which two different parameters can be equivalent (one key): a binding for one is '
+              'answered for, and overwritten by, the other' if not by_address else 'not a map from parameter addresses to expressions'), loc=rec['loc'])
